@@ -14,7 +14,7 @@ NestDoc == [t |-> "rec", v |-> <<
    [k |-> "e", v |-> [t |-> "enum", v |-> "RED"]], [k |-> "f", v |-> [t |-> "fixed", v |-> <<"alnum", "alnum">>]],
    [k |-> "t", v |-> Str(<<"alnum">>)] >>]
 BaseDocs == { [s |-> "Nest", av |-> NestDoc], [s |-> "IncTop", av |-> RecBase("IncTop")], [s |-> "Prims", av |-> RecBase("Prims")],
-              [s |-> "Leaf", av |-> LB], [s |-> "SibG", av |-> RecBase("SibG")], [s |-> "SibP", av |-> RecBase("SibP")], [s |-> "DefContainers", av |-> RecBase("DefContainers")], [s |-> "CK", av |-> RecBase("CK")],
+              [s |-> "Leaf", av |-> LB], [s |-> "SibG", av |-> RecBase("SibG")], [s |-> "SibP", av |-> RecBase("SibP")], [s |-> "SibOnly", av |-> RecBase("SibOnly")], [s |-> "DefContainers", av |-> RecBase("DefContainers")], [s |-> "CK", av |-> RecBase("CK")],
               [s |-> "DefOuter", av |-> [t |-> "rec", v |-> SelectSeq(RecBase("DefOuter").v, LAMBDA e : e.k # "oinner")]] }
 VARIABLES base, mdoc      \* mdoc: the marked document (removed fields carry NullV)
 doc == IF mdoc = None THEN None ELSE StripNulls(mdoc)
